@@ -582,15 +582,10 @@ Proof.
   pose proof (li_nodup s H) as ND. rewrite TK in ND.
   destruct (j_kind j) as [r a|p x] eqn:K; rewrite ?K in TK, ND; simpl in *.
   - split; [|intros; discriminate].
-    apply (LI_transfer s); auto.
-    + destruct s; unfold same_core; simpl; auto.
-    + rewrite TK'. auto.
-    + intros p. rewrite TK, TK'. auto.
+    apply (LI_transfer s); auto; try (destruct s; unfold same_core; simpl; auto; fail); rewrite ?TK, ?TK'; auto.
   - apply NoDup_remove in ND. destruct ND as [ND NI]. split.
-    + apply (LI_transfer s); auto.
-      * destruct s; unfold same_core; simpl; auto.
-      * rewrite TK'. auto.
-      * intros q. rewrite TK, TK'. intros I. apply in_app_or in I. apply in_or_app. destruct I; auto. right; right; auto.
+    + apply (LI_transfer s); auto; try (destruct s; unfold same_core; simpl; auto; fail); rewrite ?TK, ?TK'; auto.
+      intros q I. apply in_app_or in I. apply in_or_app. destruct I; auto. right; right; auto.
     + intros p0 x0 E. inversion E; subst. split.
       * apply PE. apply (li_pend s H). rewrite TK. apply in_or_app. right. left. auto.
       * rewrite TK'. auto.
@@ -654,9 +649,13 @@ Proof. unfold end_run. li. Qed.
 
 Lemma LI_init : LI init.
 Proof.
-  constructor; simpl; try constructor; try (intros ? []).
-  - intros p pr H. discriminate.
-  - intros p. reflexivity.
+  constructor; simpl.
+  - constructor.
+  - intros ? [].
+  - intros q pr H. discriminate.
+  - constructor.
+  - intros ? [].
+  - intros q. reflexivity.
 Qed.
 
 Lemma LI_runS fuel runs : LI (runS T fuel runs).
@@ -693,13 +692,5 @@ Qed.
 Lemma latched_noop r x s pa :
   get_pair r s = Some pa -> pr_latched pa = true -> resolve_fn T r x s = s /\ reject_fn r x s = s.
 Proof. intros G L. unfold resolve_fn, reject_fn. rewrite G, L. auto. Qed.
-
-(* the first call through a pair latches it *)
-Lemma call_latches r x s pa :
-  get_pair r s = Some pa ->
-  (exists pa', get_pair r (resolve_fn T r x s) = Some pa' /\ pr_latched pa' = true) /\
-  (exists pa', get_pair r (reject_fn r x s) = Some pa' /\ pr_latched pa' = true).
-Proof.
-Abort.
 
 End T.
